@@ -17,19 +17,22 @@ LITERALS = ["1", "2", "0", "-1", "'a'", "'b'", "''", "b'x'", "True", "False",
 class Ctx:
   """What is in scope while a type is generated."""
 
-  def __init__(self, classes, typevars=(), allow_any=True, allow_object=True):
+  def __init__(self, classes, typevars=(), allow_any=True, allow_object=True,
+               allow_none=True):
     self.classes = list(classes)
     self.typevars = list(typevars)
     self.allow_any = allow_any
     self.allow_object = allow_object
+    self.allow_none = allow_none
 
 
 @st.composite
 def type_expr(draw, ctx, depth=2):
   """A type expression as text."""
   leafs = [s for s in SCALARS
-           if (s != "Any" or ctx.allow_any) and (s != "object" or
-                                                 ctx.allow_object)]
+           if (s != "Any" or ctx.allow_any) and
+           (s != "object" or ctx.allow_object) and
+           (s != "None" or ctx.allow_none)]
   leafs = leafs + list(ctx.classes) + list(ctx.classes) + list(ctx.typevars)
   if depth <= 0:
     return draw(st.sampled_from(leafs))
@@ -205,8 +208,11 @@ def stub(draw, max_classes=4, max_consts=5, max_funcs=4, depth=2,
   alias_lines = []
   if aliases:
     for i in range(draw(st.integers(0, 2))):
-      t = draw(type_expr(Ctx(class_names, []), 1))
-      if t in ("None",):
+      # `X = None` reads back as a constant, and pytype prints a None-valued
+      # name as `X: None`, so aliases that could normalise to None are not
+      # part of the emitted dialect.
+      t = draw(type_expr(Ctx(class_names, [], allow_none=False), 1))
+      if t.startswith("Literal[") and "None" in t:
         t = "int"
       alias_lines.append("Alias%d = %s" % (i, t))
   funcs = []
